@@ -18,7 +18,7 @@ Go float arithmetic is exact); `avg` is the exact quotient, `f64div` is the corr
 quotient the Oracle prints for it.  Core Lean only.
 
 NOT modelled: tags-tree lookup, PromQL parser, range/math/label functions, topk/bottomk/stddev/stdvar/
-quantile/group, ApplyAggregationToResults' value path (its GROUP KEYS are the same `extractGroupKey`).
+quantile/group; the second aggregation stage (`results2`) is tied by correspondence only, no theorem.
 -/
 namespace SigModel.Promql
 
@@ -253,6 +253,38 @@ def keys (q : Query) (ss : List Series) : List (Str × Nat) :=
 
 def results (q : Query) (ss : List Series) : List (Str × Nat × Rat) :=
   (keys q ss).filterMap (fun gt => (aggAt q ss gt.1 gt.2).map (fun v => (gt.1, gt.2, v)))
+
+/-! ### a second aggregation over the result map (ApplyAggregationToResults, 382-474; correspondence only)
+
+Every (key, timestamp, value) of the first result becomes one RunningEntry with runningCount 1 under
+`getAggSeriesId(key)`; `count` goes through computeAggCount again (one entry per first-stage key). -/
+
+def group2 (q : Query) (g1 : Str) : Str :=
+  if q.fn = .count ∧ q.fields = [] then q.name ++ [cBrace]
+  else extractGroupKey q.fields q.without g1
+
+def ratSum : List Rat → Rat
+  | [] => 0
+  | x :: xs => x + ratSum xs
+
+def ratMin : List Rat → Rat
+  | [] => 0
+  | x :: xs => xs.foldl (fun r v => if v < r then v else r) x
+def ratMax : List Rat → Rat
+  | [] => 0
+  | x :: xs => xs.foldl (fun r v => if v > r then v else r) x
+
+def results2 (q : Query) (r1 : List (Str × Nat × Rat)) : List (Str × Nat × Rat) :=
+  let ks := dedup (r1.map (fun e => (group2 q e.1, e.2.1)))
+  ks.map (fun gt =>
+    let vs := (r1.filter (fun e => group2 q e.1 = gt.1 ∧ e.2.1 = gt.2)).map (·.2.2)
+    let v : Rat := match q.fn with
+      | .sum => ratSum vs
+      | .min => ratMin vs
+      | .max => ratMax vs
+      | .count => (vs.length : Rat)
+      | .avg => ratSum vs / (vs.length : Rat)
+    (gt.1, gt.2, v))
 
 /-! ### what the property demands (no strings: membership is decided on the label sets) -/
 
